@@ -139,6 +139,13 @@ func Minimise(t *testing.T, plan *Plan, sig string, maxRuns int, maxWall time.Du
 				best, changed = c, true
 			}
 		}
+		if best.Knobs.SharedChannel {
+			c := best.Clone()
+			c.Knobs.SharedChannel = false
+			if try(c) {
+				best, changed = c, true
+			}
+		}
 		if len(best.Knobs.LateAck) > 0 {
 			c := best.Clone()
 			c.Knobs.LateAck = nil
